@@ -25,7 +25,7 @@ from sim.engine_fault import make_exact_engine
 
 PROP = 'C18'
 WL_DIR = os.path.join(core.VERIF, 'workloads')
-WL_FILES = {'main': 'c18_main.py', 'alt': 'c18_alt.py', 'cap': 'c18_captured.py'}
+WL_FILES = {'main': 'c18_main.py', 'alt': 'c18_alt.py', 'cap': 'c18_captured.py', 'fac': 'c18_factory.py'}
 CTX_NAMES = [None, 'FP64', 'FP32', 'FP16', 'RTZ16', 'RTP16', 'RTN32', 'RAZ8', 'MP5', 'FX4', 'REAL']
 HOT = frozenset(['eval', 'compile', 'to_value', 'from_value', '_mpfr_call_with_prec', '__iter__', 'mpfr_call',
                  '_visit_context', '_normalize', 'register', '_func_ctx', '_call_fpy', '_eval_call', 'round'])
@@ -62,9 +62,11 @@ def load_ns(name: str) -> dict:
     """Loads (once per process) a workload namespace; evaluates nothing."""
     preimport()
     if name not in _NS:
-        import runpy
-        path = os.path.join(WL_DIR, WL_FILES[name])
-        _NS[name] = runpy.run_path(path, run_name=f'c18wl_{name}')
+        # a real module (it stays in sys.modules), so that functions defined later by its
+        # helpers can still find their source
+        import importlib
+        mod = importlib.import_module('workloads.' + WL_FILES[name][:-3])
+        _NS[name] = mod.__dict__
     return _NS[name]
 
 
@@ -198,8 +200,44 @@ def gen_args(r: random.Random, sig: list[str]):
     return args
 
 
-CATALOGUE = 8
+CATALOGUE = 10
 _CATALOGUE: dict = {}
+# argument structure is a dimension of the property: besides mixed representations, whole
+# argument tuples whose numbers all share one representation (all Fraction, all Float, all
+# rounded Float carrying flags and a context, all float, all int, all RealFloat)
+_MODES = ['mixed', 'mixed', 'q', 'F', 'Fr', 'f', 'i', 'R', 'mixed', 'F']
+
+
+def _coerce_num(spec, kind: str):
+    v = _numval(spec)
+    if v is None or kind == 'mixed':
+        return spec
+    d = v.denominator
+    dyadic = d & (d - 1) == 0
+    if kind == 'i':
+        n = v.numerator // v.denominator
+        return ['i', n if n != 0 or v == 0 else 1]
+    if kind == 'f':
+        return ['f', float(v).hex()]
+    if kind == 'q':
+        return ['q', str(v)]
+    if kind == 'F':
+        return ['F', str(v if dyadic else Fraction(float(v)))]
+    if kind == 'R':
+        return ['R', str(v if dyadic else Fraction(float(v)))]
+    if kind == 'Fr':
+        return ['Fr', str(v), 'FP32']
+    return spec
+
+
+def _coerce(spec, kind: str):
+    if spec[0] == 'L':
+        return ['L', spec[1], [_coerce(x, kind) for x in spec[2]]]
+    if spec[0] == 'T':
+        return ['T', [_coerce(x, kind) for x in spec[1]]]
+    if spec[0] == 'A':
+        return spec
+    return _coerce_num(spec, kind)
 
 
 def catalogue(ns: str, name: str, sig: list[str]) -> list:
@@ -211,7 +249,8 @@ def catalogue(ns: str, name: str, sig: list[str]) -> list:
     k = (ns, name)
     if k not in _CATALOGUE:
         rr = random.Random(f'catalogue:{ns}:{name}')
-        _CATALOGUE[k] = [gen_args(rr, sig) for _ in range(CATALOGUE)]
+        _CATALOGUE[k] = [[_coerce(a, _MODES[e % len(_MODES)]) if s_ not in ('cnt', 'idx') else a
+                          for a, s_ in zip(gen_args(rr, sig), sig)] for e in range(CATALOGUE)]
     return _CATALOGUE[k]
 
 
@@ -284,6 +323,14 @@ def gen_run(seed: int, tier: str, sub: str) -> dict:
                     ops.append({'op': 'redefine', 'base': base, 'ns': new})
                     ns_map[base] = new
                     continue
+            if sub != 'captured' and x > 0.92:
+                fac = load_ns('fac')
+                kind = r.choice(sorted(fac['FACTORIES']))
+                maker, one, pool_vals = fac['FACTORIES'][kind]
+                vals = r.sample(pool_vals, r.randint(2, 3))
+                ops.append({'op': 'factory', 'maker': maker, 'one': one, 'vals': vals, 'x': r.choice(NUMS[:14]),
+                            'ctx': r.choice(CTX_NAMES)})
+                continue
             ns, name, cargs, cctx = r.choice(call_pool)
             m = meta[ns]
             ders = m['DERIVABLE'].get(name, [])
@@ -366,11 +413,20 @@ def execute_run(run: dict) -> dict:
     )
 
     def resolve(ref):
-        if ref[0] == 'd':
+        if ref[0] in ('d', 'fl'):
             return derived.get(json.dumps(ref))
         ns, name = ref
         sp = spaces.get(ns)
         return None if sp is None else sp.get(name)
+
+    # arguments are built before any simulated thread starts: constructing them is the caller's
+    # business (it runs library code: rounding a Fraction), not part of the evaluation under test
+    prebuilt = {}
+    for t_, ops_ in enumerate(run['threads']):
+        for j_, op_ in enumerate(ops_):
+            if op_['op'] == 'call':
+                memo_: dict = {}
+                prebuilt[(t_, j_)] = [V.build_arg(a, memo_) for a in op_['args']]
 
     def body(sc: Scheduler, i: int):
         own_rt = fp.BytecodeInterpreter()
@@ -384,8 +440,7 @@ def execute_run(run: dict) -> dict:
                     if fn is None:
                         rec['outcome'] = ['no-fn']
                     else:
-                        memo: dict = {}
-                        args = [V.build_arg(a, memo) for a in op['args']]
+                        args = prebuilt[(i, j)]
                         before = [V.snap_deep(a) for a in args]
                         arg_lists = set()
                         for a in args:
@@ -423,6 +478,14 @@ def execute_run(run: dict) -> dict:
                         except Exception as e:
                             rec['outcome'] = ['exc', type(e).__name__]
                         rec['src_text_same'] = src.format() == text_before
+                elif kind == 'factory':
+                    try:
+                        res = load_ns('fac')[op['maker']](op['vals'], V.build_arg(op['x'], {}), ctx_of(spaces, op['ctx']))
+                        rec['outcome'] = ['ok', [V.denote(v) for v in res]]
+                    except (SimCancel, StepLimit):
+                        raise
+                    except Exception as e:
+                        rec['outcome'] = ['exc', type(e).__name__]
                 elif kind == 'new_rt':
                     own_rt = fp.BytecodeInterpreter()
                     rec['outcome'] = ['ok']
@@ -527,6 +590,8 @@ def _ref_eval(key: dict, args_spec: list, ctxname) -> list:
     ns, name = key['root']
     sp = load_ns(ns)
     fn = sp[name]
+    if 'factory' in key:
+        fn = fn(key['factory'])
     try:
         for strat, kw in key['chain']:
             fn = _apply_strategy(fn, strat, kw)
@@ -590,6 +655,25 @@ def judge(run: dict, out: dict) -> list[dict]:
         op = run['threads'][rec['t']][rec['j']]
         if rec['op'] == 'derive':
             derive_ok[json.dumps(op['ref'])] = rec.get('outcome')
+        if rec['op'] == 'factory':
+            # each definition made in the loop, evaluated while its captured value was current,
+            # against the same definition made once in a fresh process
+            oc = rec.get('outcome') or ['missing']
+            sig = {'fn': op['maker'], 'ns': 'fac', 'sub': run['cfg']['sub']}
+            exp = []
+            for v in op['vals']:
+                ref = reference({'root': ['fac', op['one']], 'factory': v, 'chain': []}, [op['x']], op['ctx'])
+                exp.append(ref)
+            if any(e[0] == 'undecided' for e in exp) or oc[0] in ('cancelled', 'missing'):
+                continue
+            if all(e[0] == 'ok' for e in exp):
+                want = ['ok', [e[1] for e in exp]]
+            else:
+                want = [e for e in exp if e[0] != 'ok'][0]
+            if oc != want:
+                vios.append(_vio('A3-result-depends-on-history-or-schedule', sig,
+                                 {'op': op, 'observed': oc, 'reference': want, 't': rec['t'], 'j': rec['j']}, run))
+            continue
         if rec['op'] != 'call':
             continue
         oc = rec.get('outcome') or ['missing']
@@ -680,7 +764,7 @@ def collect_stats(st: core.Stats, run: dict, out: dict):
                 st.count('undecided', 'reference')
             if oc[0] == 'ok':
                 ok += 1
-        elif rec['op'] in ('engine', 'swap_default', 'redefine', 'gc', 'new_rt'):
+        elif rec['op'] in ('engine', 'swap_default', 'redefine', 'gc', 'new_rt', 'factory'):
             st.count('faults', rec['op'])
         elif rec['op'] == 'derive':
             st.count('faults', 'derive')
@@ -704,6 +788,8 @@ def _short(o: dict) -> str:
         return f"call {fn} ctx={o['ctx']} rt={o['rt']}" + (f" cancel@{o['cancel']}" if o.get('cancel') else '')
     if o['op'] == 'derive':
         return f"derive {o['strategy']}({o['src'][1]})"
+    if o['op'] == 'factory':
+        return f"factory {o['maker']}{o['vals']} x={o['x']} ctx={o['ctx']}"
     return o['op']
 
 
